@@ -1,16 +1,24 @@
 #!/bin/sh
-# Applies every kept seeded change to /repo in turn, runs the quick check of its property, undoes it, and records the verdict.
+# Applies every kept seeded change in turn to a scratch worktree of /repo's HEAD (never to /repo itself), runs the quick check of
+# its property against that worktree (SCARED_REPO), undoes it, and records the verdict in seeded/RESULTS.tsv.
+# Evidence of these mutated runs goes to a scratch directory, not to /verif/evidence.
 OUT=/verif/seeded/RESULTS.tsv
+W=/tmp/seedsweep_repo
+git -C /repo worktree remove --force $W 2>/dev/null
+git -C /repo worktree add --detach $W HEAD >/dev/null 2>&1 || exit 3
+export SCARED_REPO=$W VERIF_EVIDENCE_DIR=/tmp/seedsweep_evidence
 printf "seed\texit\tverdict\twall_s\n" > $OUT
 for d in /verif/seeded/C??/A /verif/seeded/C??/B /verif/seeded/C??/C /verif/seeded/C??/D; do
+  [ -f $d/patch.diff ] || continue
   id=$(echo $d | cut -d/ -f4); x=$(basename $d)
-  cd /repo && git checkout -q -- . && git apply $d/patch.diff 2>/dev/null || { printf "$id/$x\t-\tpatch-does-not-apply\t0\n" >> $OUT; continue; }
+  cd $W && git checkout -q -- . && git apply $d/patch.diff 2>/dev/null || { printf "$id/$x\t-\tpatch-does-not-apply\t0\n" >> $OUT; continue; }
   t0=$(date +%s)
   cd /verif && timeout 1800 ./check $id quick > /tmp/seedrun_${id}_$x.log 2>&1; rc=$?
   t1=$(date +%s)
-  git -C /repo checkout -q -- .
+  git -C $W checkout -q -- .
   v=$(grep -c "^VIOLATION property=$id" /tmp/seedrun_${id}_$x.log)
   printf "$id/$x\t$rc\t$( [ $rc -eq 1 ] && echo caught || ( [ $rc -eq 0 ] && echo MISSED || echo inconclusive ) ) ($v violation lines)\t$((t1-t0))\n" >> $OUT
 done
-git -C /repo checkout -q -- .
+git -C /repo worktree remove --force $W
+rm -rf /tmp/seedsweep_evidence
 echo done
